@@ -134,7 +134,9 @@ def make_server_classes():
             else:
                 fstr = "rb"
             try:
-                f = os.fdopen(fd, fstr)
+                # unbuffered: a buffered server-side file object would keep serving stale bytes after the file is
+                # resized by name (set_file_attr) - that would be this stub's defect, not the library's
+                f = os.fdopen(fd, fstr, buffering=0)
             except OSError as e:
                 return SFTPServer.convert_errno(e.errno)
             h = Handle(flags)
@@ -292,3 +294,121 @@ class FakeChannel:
 
     def __repr__(self):
         return "<FakeChannel>"
+
+
+# --------------------------------------------------------------------------- C27
+
+def _ret(v):
+    """uniformly typed result record (BinFile.tla: RBytes / RInt / RLines / RNone)"""
+    if isinstance(v, (bytes, bytearray, str)):
+        b = v.encode("utf-8") if isinstance(v, str) else bytes(v)
+        return {"k": "bytes", "b": list(b), "i": 0, "ls": []}
+    if isinstance(v, bool):
+        raise TypeError("unexpected boolean result")
+    if isinstance(v, int):
+        return {"k": "int", "b": [], "i": v, "ls": []}
+    if v is None:
+        return {"k": "none", "b": [], "i": 0, "ls": []}
+    if isinstance(v, list):
+        return {"k": "lines", "b": [], "i": 0, "ls": [list(x.encode("utf-8") if isinstance(x, str) else bytes(x)) for x in v]}
+    raise TypeError("unexpected result %r" % (v,))
+
+
+ERR = {"k": "err", "b": [], "i": 0, "ls": []}
+
+
+def do_op(f, e):
+    """one call of the program on a file object (local FileIO or SFTPFile); e = {op, n, data, off, whence}"""
+    op = e["op"]
+    if op == "read":
+        return f.read() if e["n"] < 0 else f.read(e["n"])
+    if op == "readline":
+        return f.readline() if e["n"] < 0 else f.readline(e["n"])
+    if op == "readlines":
+        return f.readlines()
+    if op == "write":
+        return f.write(bytes(e["data"]))
+    if op == "seek":
+        return f.seek(e["off"], e["whence"])
+    if op == "tell":
+        return f.tell()
+    if op == "truncate":
+        return f.truncate(e["n"])
+    if op == "flush":
+        return f.flush()
+    if op == "close":
+        return f.close()
+    raise ValueError(op)
+
+
+def run_events(f, prog):
+    out = []
+    for e in prog:
+        ev = dict(e)
+        try:
+            ev["ret"] = _ret(do_op(f, e))
+            ev["exc"] = ""
+        except Exception as x:       # "both raise" is all the statement compares for failing calls
+            ev["ret"] = dict(ERR)
+            ev["exc"] = repr(x)[:120]
+        out.append(ev)
+    return out
+
+
+def prepare(path, mode, initial):
+    if mode in ("x", "x+"):
+        if os.path.exists(path):
+            os.remove(path)
+    else:
+        with open(path, "wb") as g:
+            g.write(bytes(initial))
+
+
+def read_back(path):
+    with open(path, "rb") as g:
+        return list(g.read())
+
+
+LOCAL_MODE = {"r": "rb", "r+": "r+b", "w": "wb", "w+": "w+b", "a": "ab", "a+": "a+b", "x": "xb", "x+": "x+b"}
+# compared with *binary* local files, so every paramiko mode gets a "b"; paramiko's exclusive flag is spelled wx / w+x
+SFTP_MODE = {"r": "rb", "r+": "r+b", "w": "wb", "w+": "w+b", "a": "ab", "a+": "a+b", "x": "wxb", "x+": "w+xb"}
+
+
+def run_local(path, mode, initial, prog):
+    """the reference implementation: an unbuffered local binary file"""
+    prepare(path, mode, initial)
+    f = open(path, LOCAL_MODE[mode], buffering=0)
+    try:
+        events = run_events(f, prog)
+    finally:
+        f.close()
+    return events, read_back(path)
+
+
+def run_sftp(pair, name, mode, bufsize, pipelined, initial, prog, seconds=60.0):
+    """the same program through SFTPClient.open on a real client/server pair; returns (events, final) or
+    ("hang", index of the call that did not return)"""
+    path = pair.path(name)
+    prepare(path, mode, initial)
+    state = {"events": [], "i": 0}
+
+    def body():
+        f = pair.client.open(name, SFTP_MODE[mode], bufsize)
+        if pipelined:
+            f.set_pipelined(True)
+        try:
+            for i, e in enumerate(prog):
+                state["i"] = i
+                state["events"] += run_events(f, [e])
+        finally:
+            try:
+                f.close()
+            except Exception:
+                pass
+            f._closed = True            # a close that failed must not be retried (noisily) by __del__
+    kind, val = call_with_watchdog(body, seconds)
+    if kind == "hang":
+        return "hang", state["i"]
+    if kind == "exc":
+        raise val
+    return state["events"], read_back(path)
